@@ -42,7 +42,7 @@ require (
 	github.com/k0kubun/colorstring v0.0.0-20150214042306-9440f1994b88 // indirect
 	github.com/kr/text v0.2.0 // indirect
 	github.com/lucasb-eyer/go-colorful v1.2.0 // indirect
-	github.com/mattn/go-isatty v0.0.12 // indirect
+	github.com/mattn/go-isatty v0.0.12
 	github.com/mattn/go-runewidth v0.0.14 // indirect
 	github.com/mattn/go-tty v0.0.3 // indirect
 	github.com/pkg/term v1.2.0-beta.2 // indirect
@@ -61,9 +61,9 @@ replace go.elara.ws/pcre => github.com/dip-proto/go-pcre v0.0.0-20260204122309-d
 // github.com/ysugimoto/falco without the required /v2 suffix and are
 // not importable. Use the next published release or later.
 retract (
-	v2.0.0
-	v2.0.1
-	v2.1.0
-	v2.2.0
 	v2.3.0
+	v2.2.0
+	v2.1.0
+	v2.0.1
+	v2.0.0
 )
